@@ -136,6 +136,15 @@ class Unit:
             out.append(L.struct_text(q))
         for cname, fi in L.fns.items():
             out.append(fi.proto + ';\n')
+        # shape facts of the lowered code, so that a sidecar loop contract applies only to the loop it was written for
+        # (#if defined(LOOPKIND_<fn>_<k>_<kind>) && defined(HASVAR_<fn>_<name>)); otherwise the loop falls back to the
+        # default havoc abstraction and counts as un-annotated
+        for cname, fi in L.fns.items():
+            for lp in fi.loops:
+                kind = re.sub(r'[^a-z]', '_', lp['kind'].split(' ')[0].lower())
+                out.append('#define LOOPKIND_%s_%d_%s 1\n' % (cname, lp['ordinal'], kind))
+            for v in sorted(fi.locals):
+                if re.fullmatch(r'[A-Za-z_][A-Za-z0-9_]*', v): out.append('#define HASVAR_%s_%s 1\n' % (cname, v))
         out.append('#line %d "%s"\n' % (self.p2_line, self.path))
         out.append(self.part2)
         out.append('#line 1 "generated-code"\n')
@@ -168,6 +177,21 @@ class Unit:
                   open(os.path.join(self.dir, 'lowering.json'), 'w'), indent=1)
         return text
 
+    _dl = None
+    def default_loops(self):
+        """loop slots that ended up with the default havoc invariant in the built unit (found by preprocessing unit.c)"""
+        if self._dl is None:
+            self._dl = set()
+            r = subprocess.run(['gcc', '-E', '-P', '-I', VERIF, '-DVERIF_CBMC', '-DVERIF_PROBE_LOOPS', self.unit_c], capture_output=True, text=True)
+            txt = open(self.unit_c).read()
+            for m in re.finditer(r'#ifndef (LOOP_\w+)\n#define \1 __CPROVER_loop_invariant\(1 == 1\)', txt):
+                mac = m.group(1)
+                # the default applies iff the sidecar did not define the macro before this point: test with a probe
+                probe = subprocess.run(['gcc', '-E', '-P', '-I', VERIF, '-DVERIF_CBMC', '-x', 'c', '-'], input=txt[:m.start()] + '\n#ifdef %s\nVF_HAS_CONTRACT\n#else\nVF_DEFAULT\n#endif\n' % mac,
+                                       capture_output=True, text=True)
+                if 'VF_DEFAULT' in probe.stdout: self._dl.add(mac)
+        return self._dl
+
     def unannotated_loops(self, p):
         """loops (of functions whose BODY is part of proof p) that have no loop contract in the sidecar: they are
         abstracted by havoc (invariant 1==1); a failure downstream of one may be an artefact of that abstraction"""
@@ -181,7 +205,7 @@ class Unit:
             if not fi: continue
             for lp in fi.loops:
                 mac = 'LOOP_%s_%d' % (c, lp['ordinal'])
-                if not re.search(r'#\s*define\s+%s\b' % re.escape(mac), side) and mac not in out:
+                if mac in self.default_loops() and mac not in out:
                     out.append(mac)
         return out
 
@@ -220,7 +244,7 @@ class Unit:
         if missing:
             return 'UNDECIDED', 'callee(s) with neither body nor contract: ' + ', '.join(missing), [], log, 0.0
         gi = ['goto-instrument', '--dfcc', p.harness]
-        if p.kind == 'enforce': gi += ['--enforce-contract', p.target]
+        if p.kind == 'enforce': gi += ['--enforce-contract-rec' if p.opts.get('rec') == '1' else '--enforce-contract', p.target]
         for c in replace: gi += ['--replace-call-with-contract', c]
         gi += ['--apply-loop-contracts', gb1, gb2]
         if not canary:
